@@ -18,3 +18,5 @@ Definition zlen {A : Type} (l : list A) : Z := Z.of_nat (List.length l).
 (* s[:i] and s[i:] (slices are immutable lists here: no aliasing is modelled) *)
 Definition slice_to {A : Type} (l : list A) (i : Z) : list A := firstn (Z.to_nat i) l.
 Definition slice_from {A : Type} (l : list A) (i : Z) : list A := skipn (Z.to_nat i) l.
+(* len(s) for a string *)
+Definition slen (s : string) : Z := Z.of_nat (String.length s).
